@@ -185,6 +185,16 @@ def check_container(rep, ix):
     ok = f'forrinself.rle_items:{i},v=r.value({i})' in src.replace('\n', '').replace(' ', '') or (f'forrinself.rle_items:' in src and f'{i},v=r.value({i})' in src)
     ok = ok and 'forrinreversed(self.rle_items):' in src and "raiseIndexError('listindexoutofrange')" in src
     rep.ob('R-C16-AFFINE', f'{R}:RLE.value', 'indexing carries the reduced index through the runs (forwards for i >= 0, backwards for i < 0)', ok, node=h, module=m)
+    # a run answers (reduced index, None) for `not in this run`: the hit test is `is not None` -- a stored 0 / 0.0 is a hit
+    loops = [n for n in walk_no_nested(h) if isinstance(n, ast.For) and 'rle_items' in _n(n.iter)]
+    for lp in loops:
+        rets = [n for n in ast.walk(lp) if isinstance(n, ast.Return) and isinstance(n.value, ast.Name)]
+        for r_ in rets:
+            guard = getattr(r_, '_parent', None)
+            want = common.nfs(f'{r_.value.id} is not None')
+            ok = isinstance(guard, ast.If) and any(x is r_ for x in guard.body) and show(nf(guard.test)) == want
+            rep.ob('R-C16-AFFINE', f'{R}:RLE.value', f'{"backward" if "reversed" in _n(lp.iter) else "forward"} walk returns the value of the first run that holds the index (hit test `{r_.value.id} is not None`)', ok,
+                   found=_n(guard.test) if isinstance(guard, ast.If) else 'unguarded return', required=f'{r_.value.id} is not None', node=r_, module=m)
     for meth, want in (('first', 'self.rle_items[0].datum'), ('last', 'self.rle_items[-1].last()')):
         h = ix.get_func(R, f'RLE.{meth}')
         r = [x for x in common.returns_of(h) if x.value is not None]
